@@ -17,6 +17,8 @@ SPEC = {
             rule="coin/undo bytes == reference encoder, all round trips; non-trivial = special or near-miss script, or amount with trailing zeros / near d*10^e"),
         enum("vh_c18", "c18_amounts_small", rule="exhaustive: all amounts 0..2,000,000 and all whole-coin amounts k*1e8 (k<=21M): compress == reference, decompress inverts"),
         gen("vh_c18", "up_script", 150000, 2000000, max_seconds_quick=600, rule="upstream fuzz target script (CompressScript/DecompressScript round trip asserts + sanitizers), supplementary"),
+        # coverage-guided libFuzzer campaign on the same target (thorough tier only; fz tree = g++ trace-pc + covshim)
+        fuzz('vh_c18', 'c18_coincodec', 300, max_len=400),
     ],
 }
 
